@@ -530,7 +530,8 @@ def run(chk: Check):
                         "cancel the awaiting task, leave the block, advance the clock, matching message) replayed on a virtual-time event loop")
     chk.assumptions += ["a waiter whose coroutine was cancelled but whose timeout has not elapsed may or may not still withhold a message (left open)",
                         "asyncio time is virtual (loop.time overridden); one model clock unit = 5 s"]
-    from . import growth_taskscheduler, growth_commandparser
+    from . import growth_taskscheduler, growth_commandparser, growth_addonreload
+    growth_addonreload.section(chk, 2 if chk.tier == "quick" else 3, 7 if chk.tier == "quick" else 9)
     growth_commandparser.section(chk, 5 if chk.tier == "quick" else 6, 2 if chk.tier == "quick" else 3)
     if chk.tier == "quick":
         _waiters(chk, 2, 6, "n2-d6")
